@@ -209,7 +209,7 @@ func genUniverse(r *rand.Rand) *universe {
 		if r.IntN(5) == 0 {
 			dir = fmt.Sprintf("sub/p%d", i)
 		}
-		if !rootTaken[repo.addr] && r.IntN(6) == 0 {
+		if !rootTaken[repo.addr] && r.IntN(3) == 0 {
 			dir = "" // the project at the root of its repository: its path is the repository's address
 			rootTaken[repo.addr] = true
 		}
@@ -296,7 +296,7 @@ func genUniverse(r *rand.Rand) *universe {
 	}
 	// a few requirements on untagged commits (pseudo-versions): the content of such a version is the project directory at
 	// that revision, which the resolver has to fetch by revision rather than by tag
-	for k := r.IntN(3); k > 0 && len(u.devs) > 0; k-- {
+	for k := 1 + r.IntN(3); k > 0 && len(u.devs) > 0; k-- {
 		dv := u.devs[r.IntN(len(u.devs))]
 		if _, tagless := u.tagless[dv.Path]; tagless {
 			continue
